@@ -830,12 +830,12 @@ class NDArray:
         raise Unsupported('`in` on an array')
 
     # arithmetic / logic
-    def __add__(self, o): return elementwise2(self, o, lambda a, b: a + b)
-    def __radd__(self, o): return elementwise2(o, self, lambda a, b: a + b)
-    def __sub__(self, o): return elementwise2(self, o, lambda a, b: a - b)
-    def __rsub__(self, o): return elementwise2(o, self, lambda a, b: a - b)
-    def __mul__(self, o): return elementwise2(self, o, lambda a, b: a * b)
-    def __rmul__(self, o): return elementwise2(o, self, lambda a, b: a * b)
+    def __add__(self, o): return elementwise2(self, o, lambda a, b: _num(a) + _num(b), _arith_dtype(self, o))
+    def __radd__(self, o): return elementwise2(o, self, lambda a, b: _num(a) + _num(b), _arith_dtype(o, self))
+    def __sub__(self, o): return elementwise2(self, o, lambda a, b: _num(a) - _num(b), _arith_dtype(self, o))
+    def __rsub__(self, o): return elementwise2(o, self, lambda a, b: _num(a) - _num(b), _arith_dtype(o, self))
+    def __mul__(self, o): return elementwise2(self, o, lambda a, b: _num(a) * _num(b), _arith_dtype(self, o))
+    def __rmul__(self, o): return elementwise2(o, self, lambda a, b: _num(a) * _num(b), _arith_dtype(o, self))
     def __truediv__(self, o): return elementwise2(self, o, lambda a, b: a / b, FLOAT64)
     def __neg__(self): return elementwise1(self, lambda a: -a)
     def __and__(self, o): return elementwise2(self, o, lambda a, b: a & b)
@@ -1130,6 +1130,32 @@ def elementwise2(a, b, op, dtype=None):
         d = dtype or _result_dtype(guess_dtype(a), b.dtype)
         return NDArray(b.shape, lambda i: op(a, b.fn(i)), d, b.mask_fn)
     return op(a, b)
+
+
+def _num(v):
+    """NP-BOOL-ARITH: a Boolean entering + - * counts as 0 / 1 (numpy: bool is an integer type for arithmetic with integers)"""
+    if isinstance(v, bool):
+        return int(v)
+    if isinstance(v, SBool):
+        return mk_int(z3.If(v.z, 1, 0))
+    return v
+
+
+def _arith_dtype(a, b):
+    """result dtype override for arithmetic that involves a Boolean array and an integer: the integer type (None: the usual rule)"""
+    da = a.dtype if isinstance(a, NDArray) else None
+    db = b.dtype if isinstance(b, NDArray) else None
+    kinds = {d.kind for d in (da, db) if d is not None}
+    if 'b' not in kinds:
+        return None
+    others = [d for d in (da, db) if d is not None and d.kind != 'b']
+    if others:
+        return others[0] if others[0].kind in 'iuf' else None
+    if any(isinstance(x, float) or getattr(x, '_is_float', False) for x in (a, b)):
+        return FLOAT64
+    if all(d is not None and d.kind == 'b' for d in (da, db)) or any(isinstance(x, (bool, SBool)) for x in (a, b)):
+        raise Unsupported('arithmetic between two Boolean operands (numpy: logical or / and, subtraction refused)')
+    return INT64
 
 
 def _result_dtype(a, b):
@@ -1449,6 +1475,39 @@ def arange(*a, dtype=None):
     else:
         n = max(n, 0)
     return NDArray((n,), lambda i: i[0] + start, as_dtype(dtype, INT64))
+
+
+def linspace(start, stop, num=50, endpoint=True, **kw):
+    """NP-LINSPACE: num evenly spaced values from start to stop (both ends included): element i = start + i * (stop - start) / (num - 1);
+    real arithmetic (A-REAL), finite or NaN end points (NaN spreads to every element)"""
+    used('NP-LINSPACE')
+    from .floats import FIN, NAN, SFloat, to_sfloat
+    if kw or not endpoint:
+        raise Unsupported('linspace options')
+    if isinstance(start, NDArray):
+        start = start.fn(())
+    if isinstance(stop, NDArray):
+        stop = stop.fn(())
+    a, b = to_sfloat(start), to_sfloat(stop)
+    c = core.ctx()
+    c.assumptions_used.add('A-REAL: finite float arithmetic is real arithmetic')
+    n = num
+    if is_sym(n):
+        if c.branch(zint(n) < 0):
+            raise_(ValueError, 'Number of samples must be non-negative')
+        n = mk_int(z3.If(zint(n) > 0, zint(n), 0))
+    elif n < 0:
+        raise_(ValueError, 'Number of samples must be non-negative')
+    fin = s_and(a.is_fin(), b.is_fin())
+    if fin is not True and not c.branch(zbool(s_or(fin, a.is_nan(), b.is_nan()))):
+        raise Unsupported('linspace between infinite end points')
+
+    def at(i):
+        k = zint(i[0])
+        den = z3.If(zint(n) > 1, z3.ToReal(zint(n) - 1), z3.RealVal(1))
+        v = core.zreal(a.val) + z3.ToReal(k) * (core.zreal(b.val) - core.zreal(a.val)) / den
+        return SFloat(s_ite(fin, FIN, NAN), core.mk_real(v))
+    return NDArray((n,), at, FLOAT64)
 
 
 def indices(dimensions, dtype=None, **kw):
@@ -1907,9 +1966,53 @@ def np_sort_any(a, axis=-1):
     return NDArray(src.shape, fn, src.dtype)
 
 
-def np_unique(a):
+def _unique_small(a, return_index, return_inverse, return_counts):
+    """NP-UNIQUE-SMALL: numpy.unique with return_index / return_inverse / return_counts over a 1-D array of at most 4 symbolic integers
+    (or order-isomorphic keys): explicit case split on which entries are equal and how the distinct values are ordered."""
+    used('NP-UNIQUE-SMALL')
+    c = core.ctx()
+    n = a.shape[0]
+    if a.ndim != 1 or is_sym(n) or n > 4 or a.mask_fn is not None or a.dtype.kind not in 'iu':
+        raise Unsupported('unique with return_index / return_inverse of a general array')
+    vals = [a.fn((i,)) for i in range(n)]
+    groups = []
+    for i, v in enumerate(vals):
+        for g in groups:
+            same_ = s_eq(v, g[0])
+            if same_ is True or (same_ is not False and c.branch(zbool(same_))):
+                g[1].append(i)
+                break
+        else:
+            groups.append([v, [i]])
+    ordered = []
+    for g in groups:
+        pos = 0
+        while pos < len(ordered):
+            lt = ordered[pos][0] < g[0]
+            if lt is True or (lt is not False and c.branch(zbool(lt))):
+                pos += 1
+            else:
+                break
+        ordered.insert(pos, g)
+    out = [asarray([g[0] for g in ordered], dtype=a.dtype) if ordered else NDArray((0,), lambda i: 0, a.dtype)]
+    if return_index:
+        out.append(asarray([g[1][0] for g in ordered], dtype=INT64) if ordered else NDArray((0,), lambda i: 0, INT64))
+    if return_inverse:
+        inv = [None] * n
+        for k, g in enumerate(ordered):
+            for i in g[1]:
+                inv[i] = k
+        out.append(asarray(inv, dtype=INT64) if inv else NDArray((0,), lambda i: 0, INT64))
+    if return_counts:
+        out.append(asarray([len(g[1]) for g in ordered], dtype=INT64) if ordered else NDArray((0,), lambda i: 0, INT64))
+    return tuple(out)
+
+
+def np_unique(a, return_index=False, return_inverse=False, return_counts=False):
     used('NP-UNIQUE')
     a = asarray(a)
+    if return_index or return_inverse or return_counts:
+        return _unique_small(a, return_index, return_inverse, return_counts)
     if getattr(a, 'sorted_unique', False):
         return a
     if getattr(a, 'unordered', False):
@@ -2395,7 +2498,8 @@ def np_append(arr, values, axis=None):
     a = asarray(arr)
     v = asarray(values)
     if v.ndim == 0:
-        v = NDArray((1,), lambda i: v.fn(()), v.dtype)
+        v0 = v
+        v = NDArray((1,), lambda i: v0.fn(()), v0.dtype)
     if axis is not None or a.ndim != 1:
         raise Unsupported('append with axis')
     return concatenate([a, v])
@@ -2498,6 +2602,7 @@ class NumpyModule:
     empty_like = staticmethod(empty_like)
     empty = staticmethod(empty)
     arange = staticmethod(arange)
+    linspace = staticmethod(linspace)
     indices = staticmethod(indices)
     prod = staticmethod(np_prod)
     ravel_multi_index = staticmethod(ravel_multi_index)
